@@ -718,6 +718,9 @@ fn apply_sack_to_sent_queue(
 impl<'a> Drop for SctpCleanupGuard<'a> {
     fn drop(&mut self) {
         *self.inner.state.lock() = SctpState::Closed;
+        // The run loop is gone: no SACK will ever free window credit again. Wake every
+        // sender parked in the flow-control wait so it sees Closed and returns an error.
+        self.inner.flow_control_notify.notify_waiters();
 
         let channels = self.inner.data_channels.lock();
         for weak_dc in channels.iter() {
